@@ -215,13 +215,25 @@ impl Ctx {
 		self.steps += 1;
 		let _ = write!(self.log, "{}={} ", what, n);
 	}
+	/// formatting / serializing anything read from an image of L bytes is linear work with a small constant: seconds of
+	/// CPU (thread CPU time, independent of machine load) are out of all proportion
+	fn work(&self, what: &str, t0: u64) {
+		let spent = cpu_ms().saturating_sub(t0);
+		let bound = 3000 + self.len as u64 / 50;
+		assert!(spent <= bound, "harness: more work than the input bounds: {} took {} ms of CPU for an image of {} bytes (bound {} ms)", what, spent, self.len, bound);
+	}
 	fn fmt<T: std::fmt::Debug>(&mut self, what: &str, x: &T) {
+		let t0 = cpu_ms();
 		let s = format!("{:?}", x);
 		let s2 = format!("{:#?}", x);
+		self.work(what, t0);
 		self.step(what, s.len() + s2.len());
 	}
 	fn json<T: serde::Serialize>(&mut self, what: &str, x: &T) {
-		match serde_json::to_string(x) {
+		let t0 = cpu_ms();
+		let r = serde_json::to_string(x);
+		self.work(what, t0);
+		match r {
 			Ok(s) => {
 				let v: Result<serde_json::Value, _> = serde_json::from_str(&s);
 				assert!(v.is_ok(), "harness: serializer produced malformed JSON for {}", what);
